@@ -3,7 +3,10 @@
 that the parent can kill it when one input does not come back (a C-level loop such as a regular
 expression backtracking cannot be interrupted from inside the process)."""
 import json
+import resource
 import sys
+
+resource.setrlimit(resource.RLIMIT_AS, (6 * 2 ** 30, 6 * 2 ** 30))      # a runaway allocation ends in MemoryError, not in the OOM killer
 
 sys.path.insert(0, sys.argv[1])          # scratch copy of the tree under test
 sys.path.insert(0, sys.argv[3])          # /verif
